@@ -74,31 +74,35 @@ def defectF (k : Kind) (neg : Bool) : Bool :=
   | .int i => (decide (i < 0)) == neg
   | _ => false
 
-def numCmpDefect (x y : Num) : Option String :=
-  let one (k : Kind) (d : Decoded) : Option String :=
-    match d with
-    | .fin man exp => if defectA k man exp then some "zero-vs-tiny-float" else none
-    | .inf neg => if defectF k neg then some "ibig-vs-inf" else none
-    | .nan => none
-  match x.kind, y.kind with
+def numCmpDefect1 (k : Kind) (d : Decoded) : Option String :=
+  match d with
+  | .fin man exp => if defectA k man exp then some "zero-vs-tiny-float" else none
+  | .inf neg => if defectF k neg then some "ibig-vs-inf" else none
+  | .nan => none
+
+def numCmpDefectK : Kind → Kind → Option String
   | .pf _ _, .pf _ _ => none
-  | k, .pf _ d => one k d
-  | .pf _ d, k => one k d
+  | .pf _ d, k => numCmpDefect1 k d
+  | k, .pf _ d => numCmpDefect1 k d
   | _, _ => none
+
+def numCmpDefect (x y : Num) : Option String := numCmpDefectK x.kind y.kind
 
 /-- DEFECT B (`AbsOrd` between FBig and UBig/IBig): float/src/cmp.rs `repr_cmp_ubig::<ABS = true>`
     / `repr_cmp_ibig::<ABS = true>` compare signed values in the exact step. -/
-def absCmpDefect (x y : Num) : Option String :=
-  let one (s e : Int) (k : Kind) : Option String :=
-    if fIsInf s e then none else
-    match k with
-    | .nat _ => if s < 0 then some "float-abs-negative" else none
-    | .int r => if s < 0 || r < 0 then some "float-abs-negative" else none
-    | _ => none
-  match x.kind, y.kind with
+def absCmpDefect1 (s e : Int) (k : Kind) : Option String :=
+  if fIsInf s e then none else
+  match k with
+  | .nat _ => if s < 0 then some "float-abs-negative" else none
+  | .int r => if s < 0 || r < 0 then some "float-abs-negative" else none
+  | _ => none
+
+def absCmpDefectK : Kind → Kind → Option String
   | .flt _ _ _ _, .flt _ _ _ _ => none
-  | .flt _ s e _, k => one s e k
-  | k, .flt _ s e _ => one s e k
+  | .flt _ s e _, k => absCmpDefect1 s e k
+  | k, .flt _ s e _ => absCmpDefect1 s e k
   | _, _ => none
+
+def absCmpDefect (x y : Num) : Option String := absCmpDefectK x.kind y.kind
 
 end Dashu.Model.Cross
